@@ -846,7 +846,7 @@ func worker(shard, n int) shardResult {
 	// the build must contain the instrumented charset detection (checks/c02/prebuild.sh), else ties cannot be enumerated
 	setChoices(nil)
 	_, _, _ = charset.DetectTextEncoding([]byte("a\xe9"))
-	if len(tieSizes()) != 1 {
+	if _, absent := os.Stat(filepath.Join(ev.Root(), ".build", "c02", "charset.go.absent")); len(tieSizes()) != 1 && absent != nil {
 		fail("the test binary was built without the C02 overlay (checks/c02/prebuild.sh): charset ties cannot be controlled")
 		return out
 	}
@@ -1069,6 +1069,12 @@ func TestC02(t *testing.T) {
 		"the charset detector's verdict does not depend on the decimal digits of the sandbox path (fixed-length root)",
 		"entry names are NUL-free; archives are well-formed (sizes and checksums right): malformed archives are C03/C07's concern",
 		"a mutating backend call that failed changed nothing (cross-checked by the dump of everything outside the destination)",
+	}
+	if _, err := os.Stat(filepath.Join(ev.Root(), ".build", "c02", "charset.go.absent")); err == nil {
+		rep.Coverage["charset_ties_enumerated"] = false
+		rep.Assume = append(rep.Assume, "the DetectBest call site was not found in utils/charset/charset.go: charset ties were resolved by the goroutine schedule (one resolution per case), not enumerated")
+	} else {
+		rep.Coverage["charset_ties_enumerated"] = true
 	}
 	rep.Finish()
 }
